@@ -29,10 +29,32 @@ def digest(v):
     return repr(v)
 
 
+def scribble(v):
+    """The caller owns what a query returns: change it in place (a later query must not see that)."""
+    import numpy as np
+    try:
+        if isinstance(v, list):
+            v.append(999)
+            if len(v) > 1:
+                v[0] = -7
+        elif isinstance(v, dict):
+            for key in list(v):
+                v[key] = "scribbled"
+        elif isinstance(v, np.ndarray) and v.size:
+            v.fill(7)
+        elif isinstance(v, tuple):
+            for x in v:
+                scribble(x)
+    except Exception:
+        pass
+
+
 def dcall(fn, *a, **k):
     out = common.call(fn, *a, **k)
     if out[0] == "ok":
-        return "ok:" + digest(out[1])
+        d = "ok:" + digest(out[1])
+        scribble(out[1])
+        return d
     if out[0] == "exc":
         return "exc:" + out[1]
     return "timeout"
